@@ -81,6 +81,7 @@ func run(c *vf.Ctx) {
 	guidAll(c, V)
 	guidFields(c)
 	reusedReceivers(c, V)
+	trailingBytes(c, V)
 }
 
 func lattice(c *vf.Ctx) [][16]byte {
@@ -532,6 +533,16 @@ func uuidV2(c *vf.Ctx, V [][16]byte) {
 		l.Check("C13/uuid_v2/Time/equals-time_mid-and-time_hi", u.Time == wantT, func() string {
 			return fmt.Sprintf("UUIDv2.Unmarshal(%s).Time = %#x, want %#x (time_hi<<48 | time_mid<<32)", g, u.Time, wantT)
 		})
+		{
+			// the timestamp the type reports, as a Go time, over the WHOLE 60-bit range (before 1970 too)
+			var gt time.Time
+			pan, msg, where = vf.Try(func() { gt = u.GetTime() })
+			d := int64(wantT) - int64(ref.GregorianOffset100ns()) // signed: timestamps before 1970 are negative offsets
+			wantTime := time.Unix(d/10000000, (d%10000000)*100)
+			l.Check("C13/uuid_v2/GetTime/equals-rfc4122-time-of-time_mid-and-time_hi", !pan && gt.Equal(wantTime), func() string {
+				return fmt.Sprintf("UUIDv2.Unmarshal(%s).GetTime() = %s, RFC 4122 time of timestamp %#x = %s (panic=%v %s %s)", g, gt.UTC().Format(time.RFC3339Nano), wantT, wantTime.UTC().Format(time.RFC3339Nano), pan, msg, where)
+			})
+		}
 		var m []byte
 		pan, msg, where = vf.Try(func() { m, err = u.Marshal() })
 		l.Check("C13/uuid_v2/Marshal-of-Unmarshal/identity", !pan && err == nil && bytes.Equal(m, v[:]), func() string {
